@@ -130,21 +130,23 @@ structure Toggles where
   skipIgnoresVarDefault : Bool
   listItemPathOverwrite : Bool
   ifaceErrNoPath : Bool
+  mergeKeepsPartialOnNull : Bool
   deriving Repr, BEq, DecidableEq
 
 def Toggles.defects (t : Toggles) : ExecStatic.Defects :=
   { unionCondIgnored := t.unionCondIgnored, skipIgnoresVarDefault := t.skipIgnoresVarDefault,
     nanNullInNonNull := true, resolverErrPropagates := t.resolverErrPropagates,
-    listItemPathOverwrite := t.listItemPathOverwrite, ifaceErrNoPath := t.ifaceErrNoPath }
+    listItemPathOverwrite := t.listItemPathOverwrite, ifaceErrNoPath := t.ifaceErrNoPath,
+    mergeKeepsPartialOnNull := t.mergeKeepsPartialOnNull }
 
 /-- the pinned tree -/
-def Toggles.pinned : Toggles := ⟨true, true, true, true, true, true⟩
+def Toggles.pinned : Toggles := ⟨true, true, true, true, true, true, true⟩
 
 /-- every setting (the findings of other properties may be repaired independently) -/
 def Toggles.all : List Toggles :=
   let bs := [true, false]
-  bs.flatMap fun a => bs.flatMap fun b => bs.flatMap fun c => bs.flatMap fun d => bs.flatMap fun e => bs.map fun f =>
-    ⟨a, b, c, d, e, f⟩
+  bs.flatMap fun a => bs.flatMap fun b => bs.flatMap fun c => bs.flatMap fun d => bs.flatMap fun e => bs.flatMap fun f =>
+    bs.map fun g => ⟨a, b, c, d, e, f, g⟩
 
 /-- cases of kind `dyn-…` were executed by an `async_graphql::dynamic` schema (nested selection sets serial) -/
 def Case.dyn (c : Case) : Bool := c.kind.startsWith "dyn"
